@@ -60,7 +60,9 @@ const (
 	pageFaultClose
 )
 
-const pagePrepStmt = "SELECT id, v FROM ks.t WHERE k = ?"
+// every task prepares its own statement: several callers waiting for one in-flight PREPARE
+// are all woken by its single reply, which is more than one stimulus per step
+const pagePrepStmt = "SELECT id, v FROM ks.t WHERE k = ? AND c = "
 
 type pageRow struct {
 	id int
@@ -84,6 +86,7 @@ type pageReq struct {
 type pageScript struct {
 	token string
 	qid   int
+	stmt  string
 
 	// the result as the node serves it
 	pages  [][]pageRow
@@ -180,6 +183,7 @@ func pageState(tp *kernel.Tape, token string, next int) []byte {
 
 func (pr *pageRun) drawScript(tp *kernel.Tape, ti, oi, qid, proto int) *pageScript {
 	s := &pageScript{token: fmt.Sprintf("tok-%d-%d", ti, oi), qid: qid, faultPage: -1, failedPage: -1, latePage: -1, requested: map[int]bool{}, boundary: map[int]bool{}}
+	s.stmt = "ECHO '" + s.token + "'"
 	nPages := 1 + tp.Next(6)
 	// page size: not set (session default 5000), 1, 5, 5000, 0 (no page size on the wire)
 	switch tp.Next(5) {
@@ -211,7 +215,9 @@ func (pr *pageRun) drawScript(tp *kernel.Tape, ti, oi, qid, proto int) *pageScri
 		}
 	}
 	s.global = !tp.Chance(1, 3)
-	s.prepared = tp.Chance(1, 2)
+	if s.prepared = tp.Chance(1, 2); s.prepared {
+		s.stmt = pagePrepStmt + strconv.Itoa(ti)
+	}
 	s.noSkip = tp.Chance(1, 3)
 	s.consumer = tp.Weighted([]int{3, 2, 2, 1})
 	switch tp.Next(5) {
@@ -234,8 +240,10 @@ func (pr *pageRun) drawScript(tp *kernel.Tape, ti, oi, qid, proto int) *pageScri
 		s.manual = true
 		s.manualPage = tp.Next(nPages)
 	}
-	if s.consumer == pageConsSliceMap && !s.manual {
-		// SliceMap cannot be held at a page boundary (see the comment at the top)
+	if s.consumer == pageConsSliceMap {
+		// SliceMap cannot be held at a page boundary (see the comment at the top); also for
+		// manual paging, where a correct driver never pages on, so that one that does is
+		// reported instead of freezing the bubble
 		s.prefetchSet, s.prefetch = true, 0
 	}
 	if pr.faults {
@@ -383,6 +391,13 @@ func (pr *pageRun) app(sc *node.SConn, rec *node.ReqRec) {
 	inCall := s.inCall
 	pr.mu.Unlock()
 	req := &pageReq{s: s, page: page, sc: sc, recvAt: k.SimTime(), async: !inCall}
+	if page > 0 && !s.manual {
+		if req.async {
+			k.Probe("next-page-requested-by-prefetch")
+		} else {
+			k.Probe("next-page-requested-by-consumer-at-page-end")
+		}
+	}
 
 	// ---- node-side oracle ----
 	switch {
@@ -490,6 +505,7 @@ func (pr *pageRun) sweep() {
 			s := rq.s
 			if k.SimTime()-rq.recvAt >= pr.timeout-time.Millisecond {
 				rq.late = true
+				k.Probe("reply-after-request-timeout")
 				pr.mu.Lock()
 				if s.latePage < 0 {
 					s.latePage = rq.page
@@ -505,6 +521,9 @@ func (pr *pageRun) sweep() {
 				pr.mu.Unlock()
 				if seen < s.cumEnd[rq.page-1] {
 					k.Probe("prefetch-arrived-before-page-end")
+					if seen == s.cumEnd[rq.page-1]-1 {
+						k.Probe("prefetch-arrived-one-row-before-page-end")
+					}
 				} else {
 					k.Probe("prefetch-arrived-after-consumer-blocked")
 				}
@@ -621,7 +640,9 @@ func (pr *pageRun) prefetchAlive() bool {
 	for {
 		n := runtime.Stack(pr.stackBuf, true)
 		if n < len(pr.stackBuf) {
-			return bytes.Contains(pr.stackBuf[:n], []byte("gocql.(*nextIter).fetchAsync"))
+			// "created by github.com/gocql/gocql.(*nextIter).fetchAsync.func1", or, when the
+			// compiler inlined fetchAsync, "...(*Iter).Scan.(*nextIter).fetchAsync.func2"
+			return bytes.Contains(pr.stackBuf[:n], []byte("(*nextIter).fetchAsync"))
 		}
 		pr.stackBuf = make([]byte, 2*len(pr.stackBuf))
 	}
@@ -679,9 +700,9 @@ func (pr *pageRun) setInCall(s *pageScript, v bool) {
 func (pr *pageRun) buildQuery(sess *gocql.Session, s *pageScript) *gocql.Query {
 	var q *gocql.Query
 	if s.prepared {
-		q = sess.Query(pagePrepStmt, s.token)
+		q = sess.Query(s.stmt, s.token)
 	} else {
-		q = sess.Query("ECHO '" + s.token + "'")
+		q = sess.Query(s.stmt)
 	}
 	q.Consistency(s.cons)
 	if s.pageSizeSet {
@@ -979,7 +1000,9 @@ func runPage(e *Env) {
 	proto := []int{4, 2, 3}[tp.Next(3)]
 	numConns := 1 + tp.Next(2)
 	timeout := []time.Duration{300 * time.Millisecond, 100 * time.Millisecond}[tp.Next(2)]
-	coalesce := []time.Duration{0, 200 * time.Microsecond}[tp.Next(2)]
+	// no write coalescing: a caller waiting for the coalescer's timer while its connection is
+	// closed makes closeWithError's delivery order (a Go map iteration) visible in the log
+	coalesce := time.Duration(0)
 	nTasks := 1 + tp.Next(4)
 	closeRun := !e.NoFaults && tp.Chance(1, 4) // server-side connection closes at arbitrary moments
 	e.Note("proto", proto)
@@ -1029,6 +1052,15 @@ func runPage(e *Env) {
 		cl.CloseAll()
 		return
 	}
+
+	// the pool opens its remaining connections in the background: let it finish first
+	k.SettleUntil(2*time.Second, time.Millisecond, func() { cl.Process(); cl.DeliverAll() }, func() bool {
+		n := 0
+		for _, cs := range sess.VerifPoolConns() {
+			n += len(cs)
+		}
+		return n >= numConns
+	})
 
 	// ---- park plan: where a page reply can be held up inside the driver ----
 	if pr.faults {
